@@ -4,7 +4,7 @@
 //! Every random choice of a check is drawn inside a proptest strategy; a run is a pure function
 //! of (code under test, VERIF_SEED, tier).
 
-use proptest::strategy::{BoxedStrategy, Strategy};
+use proptest::strategy::BoxedStrategy;
 use proptest::test_runner::{Config, RngSeed, TestCaseError, TestError, TestRunner};
 use serde::de::DeserializeOwned;
 use serde::Serialize;
